@@ -19,6 +19,8 @@ Directive grammar (one per line, leading blanks allowed):
   //@before "anchor"     ghost text inserted before the line holding the anchor
   //@after "anchor"      ghost text inserted after the statement holding the anchor
   //@atstart             ghost text inserted right after the opening brace of the body
+  //@afterloop N         ghost text inserted right after the closing brace of the N-th loop
+  //@tail NAME           the tail expression E becomes `let NAME = E; <ghost text> NAME` (R16)
   //@replace "old" => "new" :: reason      function-specific rewrite (logged as F)
   //@end
 
@@ -386,7 +388,7 @@ class Unit:
 
     # ------------------------------------------------------------------
     def _parse_fn_block(self, block):
-        spec = dict(requires=[], ensures=[], decreases=[], loops={}, closures={}, hints=[], replaces=[], chains=[], names=[])
+        spec = dict(requires=[], ensures=[], decreases=[], loops={}, closures={}, hints=[], replaces=[], chains=[], names=[], tail=None)
         cur = None
         for ln in block:
             s = ln.strip()
@@ -422,6 +424,16 @@ class Unit:
                         raise TemplateError('bad name directive: %s' % rest)
                     spec['names'].append((mm.group(1), mm.group(2).replace('\\"', '"')))
                     cur = None
+                elif kw == 'afterloop':
+                    # //@afterloop N: ghost text placed right after the closing brace of the N-th loop
+                    ent = dict(where='afterloop', anchor=None, nth=int(rest.strip()), lines=[])
+                    spec['hints'].append(ent)
+                    cur = ent['lines']
+                elif kw == 'tail':
+                    # //@tail NAME: the body's tail expression E becomes `let NAME = E; <ghost text> NAME` (rule R16)
+                    ent = dict(name=rest.strip(), lines=[])
+                    spec['tail'] = ent
+                    cur = ent['lines']
                 elif kw == 'atstart':
                     ent = dict(where='start', anchor=None, nth=0, lines=[])
                     spec['hints'].append(ent)
@@ -453,6 +465,7 @@ class Unit:
             spec['closures'] = {}
             spec['hints'] = []
             spec['chains'] = []
+            spec['tail'] = None
         src = self.source(alias)
         try:
             loc = src.find_fn(path)
@@ -766,6 +779,28 @@ class Unit:
             body, err = R.r8_let_chain(body, anchor, prefix, log, mut)
             if err:
                 self.lost_anchors.append('%s: %s' % (path, err))
+        if spec.get('tail'):
+            # R16: name the tail expression so that ghost text can follow its evaluation (value and order unchanged)
+            sn0 = Snippet(body)
+            t0, m0 = sn0.text, sn0.mask
+            close = len(t0.rstrip()) - 1
+            k, last = 1, 1
+            while k < close:
+                if m0[k] == CODE:
+                    if t0[k] in '([{':
+                        k = match_close(t0, m0, k)
+                    elif t0[k] == ';':
+                        last = k + 1
+                k += 1
+            tail = t0[last:close]
+            if not tail.strip():
+                self.lost_anchors.append('%s: no tail expression to name' % path)
+            else:
+                lead = tail[:len(tail) - len(tail.lstrip())]
+                nm = spec['tail']['name']
+                new = '%slet %s = %s;\n%s\n        %s\n' % (lead, nm, tail.strip(), '\n'.join(spec['tail']['lines']), nm)
+                log.append(dict(rule='R16', before=norm_ws(tail), after=norm_ws('let %s = %s; <ghost> %s' % (nm, tail.strip(), nm))))
+                body = t0[:last] + new + t0[close:]
         sn = Snippet(body)
         edits = []   # (pos, end, replacement_text, taglines) ; insertion when pos==end
         # loops
@@ -822,7 +857,12 @@ class Unit:
             new = '%s|%s| -> %s' % ('move ' if c['move'] else '', params, retb)
             if ens:
                 new += ' ensures ' + ens.replace('@BODY', inner)
-            new += ' { ' + inner + ' }'
+            # R2 inside an annotated closure: a by-reference pattern parameter `&x` is taken as `x__r` and copied out first
+            pre = ''
+            for mref in re.finditer(r'&\s*([a-z_][a-z0-9_]*)\b', c.get('params') or ''):
+                if re.search(r'\b%s__r\b' % re.escape(mref.group(1)), params):
+                    pre += 'let %s = *%s__r; ' % (mref.group(1), mref.group(1))
+            new += ' { ' + pre + inner + ' }'
             log.append(dict(rule='closure-annotation', before=norm_ws(body[c['start']:c['body_end']]), after=norm_ws(new)))
             edits.append((c['start'], c['body_end'], new, None))
         # hints
@@ -830,6 +870,13 @@ class Unit:
             if h['where'] == 'start':
                 # ghost text placed right after the opening brace of the body (cannot be lost)
                 edits.append((1, 1, '\n' + '\n'.join(h['lines']), None))
+                continue
+            if h['where'] == 'afterloop':
+                if h['nth'] < 1 or h['nth'] > len(loops):
+                    self.lost_anchors.append('%s: afterloop %d: function has %d loops' % (path, h['nth'], len(loops)))
+                    continue
+                cb = match_close(body, sn.mask, loops[h['nth'] - 1][2])
+                edits.append((cb + 1, cb + 1, '\n' + '\n'.join(h['lines']), None))
                 continue
             occ = [mm.start() for mm in re.finditer(re.escape(h['anchor']), body) if sn.mask[mm.start()] == CODE]
             if h['nth']:
